@@ -248,6 +248,46 @@ def trickle_peer_scenario(rng, passive, idle, seglen, chunk, period_ms):
     return adv, bad
 
 
+def keepalive_vs_idle_scenario(rng, passive, keepalive, idle):
+    ''' X established with keepalive negotiated to `keepalive` s and idle time `idle` s > keepalive against a
+    peer that stays silent: X's own KEEPALIVEs are traffic, so idle-timeout termination may only start when
+    `idle` s have passed since the last octet written or read. '''
+    from props import c17
+    adv = c17.Adversary(rng, passive, {'seg_init': 10, 'idle': idle, 'keepalive': keepalive})
+    adv.peer_keepalive = keepalive
+    x, sim = adv.x, adv.sim
+    bad = []
+    if not adv.to_state('established'):
+        return adv, bad
+    adv.drain()
+    last_traffic = ts.LOOP.now
+    sent_before = len(x.sock.sent)
+    horizon = ts.LOOP.now + 4 * idle * 1000
+    while ts.LOOP.now < horizon and not x.closed():
+        dls = [s.deadline for s in x.sources('timeout') if s.deadline is not None]
+        if not dls:
+            break
+        sim.advance(max(0, min(dls) - ts.LOOP.now))
+        for t in sim.due_timers(x):
+            sim.timer(x, t)
+            if x.obs[-1].get('escaped'):
+                bad.append(('C14:timer-escape-%s-%s' % (t, x.obs[-1]['escaped']), '%s timer raised %s' % (t, x.obs[-1]['escaped'])))
+                return adv, bad
+            adv.drain()
+            terms = [m for m in adv.frames() if m['k'] == 'sess_term']
+            if terms and ts.LOOP.now - last_traffic < idle * 1000:
+                bad.append(('C14:idle-timeout-despite-traffic',
+                            'SESS_TERM(reason %d) written %d ms after the last octet was written (idle time %d s, keepalive %d s, silent peer)'
+                            % (terms[0]['reason'], ts.LOOP.now - last_traffic, idle, keepalive)))
+                return adv, bad
+            if terms:
+                return adv, bad
+            if len(x.sock.sent) > sent_before:
+                sent_before = len(x.sock.sent)
+                last_traffic = ts.LOOP.now
+    return adv, bad
+
+
 def run(chk):
     chk.prove(MODULE)
     rng, tier = chk.rng, chk.tier
@@ -302,6 +342,15 @@ def run(chk):
                 chk.violation(sig, what, {'passive': passive, 'idle': idle, 'seglen': seglen, 'chunk': chunk, 'period_ms': period,
                                           'x_cfg': adv.x.model_cfg(), 'x_events': adv.x.events})
             advs.append((adv, 'trickle peer passive=%s idle=%s chunk=%s period=%s' % (passive, idle, chunk, period)))
+    # own KEEPALIVEs count as traffic for the idle time
+    for passive in (False, True):
+        for (ka, idle) in ((10, 25), (2, 3), (1, 5)):
+            adv, bad = keepalive_vs_idle_scenario(rng, passive, ka, idle)
+            chk.case({'keepalive_vs_idle': True, 'passive': passive, 'keepalive': ka, 'idle': idle})
+            chk.count('keepalive-vs-idle')
+            for (sig, what) in bad:
+                chk.violation(sig, what, {'passive': passive, 'keepalive': ka, 'idle': idle, 'x_cfg': adv.x.model_cfg(), 'x_events': adv.x.events})
+            advs.append((adv, 'keepalive vs idle passive=%s ka=%s idle=%s' % (passive, ka, idle)))
     reqs = [ts.model_requests(a.x) for (a, _l) in advs]
     try:
         outs = chk.driver(reqs)
